@@ -31,6 +31,8 @@ func runC10(c *core.Ctx) {
 	c.Rule("R4", "no closure that escapes (Post/go/send) from inside a loop captures a variable allocated once outside the loop and assigned inside it", 1)
 	c.Rule("R5", "Map forwards fn(v) of every origin value to the new publisher through exactly one subscription; Unsubscribe keeps removing until no occurrence is left", 2)
 	li := core.ComputeLocks(p)
+	c.Rule("R6", "every lock a Publisher method takes is released in the same mode on every return path", 1)
+	lockBalance(c, li, "R6", funcsOfType(p, p.Fpgo, "PublisherDef"))
 	// ---- R1 / R2
 	nAcc := 0
 	for _, f := range p.Funcs {
